@@ -4,6 +4,7 @@ package main
 
 import (
 	"fmt"
+	"os"
 	"go/constant"
 	"go/types"
 	"strings"
@@ -475,6 +476,13 @@ func (e *SEnv) ident(name string) Val {
 	if c.home != nil {
 		if obj := c.home.Scope().Lookup(name); obj != nil {
 			return e.pkgObject(obj)
+		}
+	}
+	if os.Getenv("GOVC_DEBUG") != "" {
+		fmt.Fprintf(os.Stderr, "DEBUG unknown ident %q: candidates=%d curBlock=%v\n", name, len(c.nameAll[name]), c.curBlock)
+		for _, v := range c.nameAll[name] {
+			_, def := c.env[v]
+			fmt.Fprintf(os.Stderr, "   cand %s defined=%v\n", v.Name(), def)
 		}
 	}
 	e.fail("unknown identifier %q in contract of %s", name, c.fnKey())
